@@ -135,6 +135,10 @@ def take_fns(f):
 
 def _veq(a, b):
     from ..interp import Opaque, Var
+    for x, y in ((a, b), (b, a)):
+        # `T::default()` of a generic helper: equal to the std defaults a default-constructed statement holds (empty list, None, ..)
+        if isinstance(x, Opaque) and x.tag == "Default::default" and not isinstance(y, Opaque):
+            return y is None or y == [] or y == "" or y is False or (isinstance(y, int) and y == 0)
     if isinstance(a, Opaque) or isinstance(b, Opaque):
         return isinstance(a, Opaque) and isinstance(b, Opaque) and a.tag == b.tag
     if isinstance(a, dict) or isinstance(b, dict):
